@@ -8,11 +8,12 @@ from vf.runner import Acc, filler
 PROPERTY = "C09"
 # E6: seq_ops() indices of the operations that are interrupted at every line (vf/seqexplore.interrupted); probes = listed indices
 INTERRUPT_X = [6, 0]
-INTERRUPT_PROBES = [6, 7, 0]
+INTERRUPT_PROBES = [6, 7, 10]      # (10: N + CKDpub/CKDpriv commutation on one key - the cheapest operation that exercises every primitive)
 CONCUR_FILES = ('bits/bips/bip32.py',)
+SMALL_FILES = ('bits/bips/bip32.py', 'bits/ecmath.py')      # scaled-down-curve scenarios: the arithmetic's lines are scheduling points too
 # (thread a, thread b), warm-up: indices into seq_ops() - the ordinary single-case checks run concurrently (vf/concur.py)
 # (real-curve derivations cost ~0.3 s per call: the node scenario is thorough-tier only)
-CONCUR_SCEN = [((6, 7), ()), ((7, 7), (6,)), ((0, 3), ())]
+CONCUR_SCEN = [((6, 7), ()), ((7, 7), (6,)), ((8, 9), ()), ((9, 8), (10,)), ((0, 3), ())]
 LEVEL = "exploration"
 RULE = ("the derivation TREE is explored explicitly (memoised by node): for seeds {16,32,64 filler bytes, BIP32 vector-1 seed} x "
         "{mainnet,testnet} EVERY path of depth <= 2 (thorough <= 3, plus depth-8 paths) over the index alphabet {0,1,2^31-1,0',1',"
@@ -163,16 +164,47 @@ def chk_payload(case):
                    "chaincode": p[13:45].hex(), "key": (p[46:] if p[45] == 0 else p[45:]).hex()}
             if d != exp:
                 out.append(("C09/deserialise/dict-fields", f"return_dict fields {str(d)[:200]} != {str(exp)[:200]}"))
+            else:
+                from vf.edits import aliasing
+                why = aliasing(lambda: b32.deserialized_extended_key(enc, return_dict=True))
+                if why:
+                    out.append(("C09/deserialise/aliased-result", f"deserialized_extended_key(return_dict=True) of the same key after the caller edited the first result: {why}"))
     return out
 
 
-CASES = {"node": chk_node, "payload": chk_payload}
+def chk_pubstep(case):
+    """the primitive the commutation clause rests on, alone (cheap enough for interleaving exploration): N(k, c) = (k*G, c) and
+    CKDpub(N(k, c), i) = N(CKDpriv(k, c, i)) for a non-hardened i"""
+    import bits.bips.bip32 as b32
+    from vf.ref import ecref
+    S = ecref.SECP256K1
+    if case.get("curve"):
+        from vf import smallcurve
+        S = smallcurve.curve(case["curve"])
+    k, c, i = case["k"], bytes.fromhex(case["c"]), case["i"]
+    out = []
+    n_ = call(b32.N, k, c)
+    P = S.mul(k, S.G)
+    if n_[0] != "ok" or tuple(n_[1][0]) != P or n_[1][1] != c:
+        return [("C09/commute/N", f"N({k:#x}, c) = {str(n_)[:120]}, expected the point {P[0]:#x}..")]
+    if case.get("full"):
+        pub = call(b32.CKDpub, tuple(n_[1][0]), c, i)
+        prv = call(b32.CKDpriv, k, c, i)
+        if pub[0] != "ok" or prv[0] != "ok":
+            return [("C09/commute/raised", f"CKDpub/CKDpriv(k={k:#x}, i={i}) = {str(pub)[:80]} / {str(prv)[:80]}")]
+        if tuple(pub[1][0]) != S.mul(prv[1][0], S.G) or pub[1][1] != prv[1][1]:
+            out.append(("C09/commute/pub-vs-priv", f"CKDpub(N(k), {i}) != N(CKDpriv(k, {i})) for k={k:#x}"))
+    return out
+
+
+CASES = {"node": chk_node, "payload": chk_payload, "pubstep": chk_pubstep}
 
 
 def run_case(kind, case):
     if kind == "concurcase":
         from vf import concur
-        return concur.replay_cases(run_case, PROPERTY, case, CONCUR_FILES)
+        small = bool(case.get("threads") and case["threads"][0][1].get("curve"))
+        return concur.replay_cases(run_case, PROPERTY, case, SMALL_FILES if small else CONCUR_FILES)
     if kind == "interrupted":
         from vf import seqexplore
         return seqexplore.replay_interrupted(run_case, case)
@@ -196,8 +228,22 @@ def long_ops(job):
     return ops
 
 
+def small_ops(job):
+    """N(k, c) on a scaled-down curve (the public-key step of every derivation; 40 us instead of 70 ms, so that interleavings
+    with two preemptions inside its loops can be enumerated)"""
+    cv = job["curve"]
+    from vf import smallcurve
+    C = smallcurve.curve(cv)
+    return [("pubstep", {"curve": cv, "k": k, "c": "22" * 32, "i": 0}) for k in (7, 13, 2 * C.n + 3, 6)]      # 3-4 bit scalars: the line-hit bound then covers every loop iteration
+
+
+SMALL_SCEN = [((0, 1), ()), ((1, 0), (3,))]
+
+
 def seq_ops(job):
     """the same seed under both networks, from root and from an intermediate key, in every order"""
+    if job.get("name", "").startswith("concurrent-small"):
+        return small_ops(job)
     sd = seeds(job["seed"])[0].hex()
     ops = []
     for tn in (False, True):
@@ -207,6 +253,9 @@ def seq_ops(job):
     ops.append(("payload", {"payload": B58.check_decode(root.xprv()).hex(), "field": "valid", "what": "valid root xprv"}))
     bad = B58.check_decode(root.xprv())
     ops.append(("payload", {"payload": (bad[:46] + bytes(32)).hex(), "field": "key", "what": "zero key"}))
+    for j in range(2):      # ops 8, 9: single public-key steps (two different 256-bit keys)
+        ops.append(("pubstep", {"k": int.from_bytes(filler(job["seed"], f"c09-ps{j}", 32), "big") % (2 ** 255) + 1, "c": filler(job["seed"], f"c09-pc{j}", 32).hex(), "i": j}))
+    ops.append(("pubstep", {"k": 5, "c": "11" * 32, "i": 0, "full": True}))
     return ops
 
 
@@ -246,7 +295,10 @@ def jobs(tier, seed):
     from vf.runner import interrupt_jobs
     js += interrupt_jobs(len(INTERRUPT_X))
     from vf.runner import concur_jobs
-    js += concur_jobs(2 if tier == "quick" else len(CONCUR_SCEN))
+    js += concur_jobs(len(CONCUR_SCEN) - (3 if tier == "quick" else 0), weight=30)      # (real-curve derivations: thorough only)
+    from vf import smallcurve
+    for i in range(len(SMALL_SCEN)):
+        js.append({"name": f"concurrent-small/{i}", "part": "concurcase", "idx": i, "curve": list(smallcurve.TABLE[0]), "deep": True, "weight": 8})
     return js
 
 
@@ -254,8 +306,9 @@ def run_job(job):
     if job["part"] == "concurcase":
         from vf.runner import run_concur_job
         ops = seq_ops(dict(job, shard=[0, 1]))
-        scens = [{"threads": [ops[i] for i in sc[0]], "warm": [ops[i] for i in sc[1]], "post": [ops[i] for i in (sc[2] if len(sc) > 2 else ())]} for sc in CONCUR_SCEN]
-        return run_concur_job(job, scens, run_case, PROPERTY, CONCUR_FILES)
+        table = SMALL_SCEN if job["name"].startswith("concurrent-small") else CONCUR_SCEN
+        scens = [{"threads": [ops[i] for i in sc[0]], "warm": [ops[i] for i in sc[1]], "post": [ops[i] for i in (sc[2] if len(sc) > 2 else ())]} for sc in table]
+        return run_concur_job(job, scens, run_case, PROPERTY, SMALL_FILES if job["name"].startswith("concurrent-small") else CONCUR_FILES)
     if job["part"] == "longhist":
         from vf.runner import run_long_job
         return run_long_job(job, long_ops(job), run_case)
